@@ -25,6 +25,7 @@ type epAction struct {
 	Kind     string `json:"k"` // ok | 500 | reset | crash | hang
 	DelayMs  int    `json:"delay_ms,omitempty"`
 	RefuseMs int    `json:"refuse_ms,omitempty"` // crash: how long the listener stays closed afterwards
+	Hold     bool   `json:"hold,omitempty"`      // the request is kept unanswered until the test releases the endpoint's gate
 }
 
 type whHook struct {
@@ -205,6 +206,7 @@ type endpoint struct {
 	listenErr string
 	closed    bool   // closed for good
 	force     string // when set, every request gets this action and the script is not consumed
+	gate      chan struct{} // closed by the test to release requests whose action has Hold
 }
 
 var epIP = fmt.Sprintf("127.77.%d.%d", (os.Getpid()>>8)&255, os.Getpid()&255)
@@ -320,6 +322,13 @@ func (e *endpoint) ServeHTTP(w http.ResponseWriter, r *http.Request) {
 	e.mu.Unlock()
 	if act.DelayMs > 0 {
 		time.Sleep(time.Duration(act.DelayMs) * time.Millisecond)
+	}
+	if act.Hold && e.gate != nil {
+		select {
+		case <-e.gate:
+		case <-r.Context().Done():
+		case <-time.After(20 * time.Second):
+		}
 	}
 	switch act.Kind {
 	case "ok":
